@@ -371,6 +371,7 @@ func genesisSites(fset *token.FileSet, m string, kfuncs map[string][]kfunc) {
 		name := work[0]
 		work = work[1:]
 		for _, kf := range kfuncs[name] {
+			loopFilters(kf.decl.Body, func(kind, detail string) { add(name, kind, detail) })
 			ast.Inspect(kf.decl.Body, func(n ast.Node) bool {
 				switch x := n.(type) {
 				case *ast.SliceExpr:
@@ -408,4 +409,127 @@ func genesisSites(fset *token.FileSet, m string, kfuncs map[string][]kfunc) {
 			})
 		}
 	}
+}
+
+// isErrCheck: `if err != nil` (any identifier whose name starts with "err"/ends with "Err").
+func isErrCheck(e ast.Expr) bool {
+	b, ok := e.(*ast.BinaryExpr)
+	if !ok || b.Op != token.NEQ {
+		return false
+	}
+	x, ok1 := b.X.(*ast.Ident)
+	y, ok2 := b.Y.(*ast.Ident)
+	if !ok1 || !ok2 || y.Name != "nil" {
+		return false
+	}
+	n := strings.ToLower(x.Name)
+	return strings.HasPrefix(n, "err") || strings.HasSuffix(n, "err")
+}
+
+// loopFilters reports, for every loop (for / range) and every collection-walk callback (a
+// function literal passed to Walk / Iterate / a *Walk* helper) in body, the statements that
+// can skip or cut short the processing of entries: `continue`, a `break` that leaves the loop,
+// a `return` that is not inside an `if err != nil` block, and a callback returning stop=true.
+func loopFilters(body *ast.BlockStmt, report func(kind, detail string)) {
+	var walk func(n ast.Node, inLoop bool, breakable bool, inErr bool, inCallback bool)
+	walk = func(n ast.Node, inLoop, breakLeavesLoop, inErr, inCallback bool) {
+		if n == nil {
+			return
+		}
+		switch x := n.(type) {
+		case *ast.ForStmt:
+			walk(x.Body, true, true, false, false)
+			return
+		case *ast.RangeStmt:
+			walk(x.Body, true, true, false, false)
+			return
+		case *ast.SwitchStmt, *ast.TypeSwitchStmt, *ast.SelectStmt:
+			ast.Inspect(x, func(c ast.Node) bool {
+				if c == n {
+					return true
+				}
+				if cc, ok := c.(*ast.CaseClause); ok {
+					for _, st := range cc.Body {
+						walk(st, inLoop, false, inErr, inCallback)
+					}
+					return false
+				}
+				if cc, ok := c.(*ast.CommClause); ok {
+					for _, st := range cc.Body {
+						walk(st, inLoop, false, inErr, inCallback)
+					}
+					return false
+				}
+				return true
+			})
+			return
+		case *ast.IfStmt:
+			walk(x.Init, inLoop, breakLeavesLoop, inErr, inCallback)
+			walk(x.Body, inLoop, breakLeavesLoop, inErr || isErrCheck(x.Cond), inCallback)
+			walk(x.Else, inLoop, breakLeavesLoop, inErr, inCallback)
+			return
+		case *ast.BlockStmt:
+			for _, st := range x.List {
+				walk(st, inLoop, breakLeavesLoop, inErr, inCallback)
+			}
+			return
+		case *ast.LabeledStmt:
+			walk(x.Stmt, inLoop, breakLeavesLoop, inErr, inCallback)
+			return
+		case *ast.BranchStmt:
+			if inLoop || inCallback {
+				switch x.Tok {
+				case token.CONTINUE:
+					report("loop-filter", "continue in a loop")
+				case token.BREAK:
+					if breakLeavesLoop || x.Label != nil {
+						report("loop-filter", "break out of a loop")
+					}
+				case token.GOTO:
+					report("loop-filter", "goto in a loop")
+				}
+			}
+			return
+		case *ast.ReturnStmt:
+			if inLoop && !inErr {
+				report("loop-filter", "return inside a loop outside an error check")
+			}
+			if inCallback && !inErr && len(x.Results) >= 1 {
+				if id, ok := x.Results[0].(*ast.Ident); !ok || id.Name != "false" {
+					report("loop-filter", "walk callback may stop the iteration")
+				}
+			}
+			// function literals inside the returned expressions
+		}
+		// generic descent: find nested function literals (walk callbacks) and statements
+		ast.Inspect(n, func(c ast.Node) bool {
+			if c == n {
+				return true
+			}
+			switch y := c.(type) {
+			case *ast.CallExpr:
+				isWalk := false
+				if sel, ok := y.Fun.(*ast.SelectorExpr); ok {
+					isWalk = strings.Contains(sel.Sel.Name, "Walk") || strings.HasPrefix(sel.Sel.Name, "Iterate")
+				}
+				for _, a := range y.Args {
+					if fl, ok := a.(*ast.FuncLit); ok {
+						walk(fl.Body, false, false, false, isWalk)
+					} else {
+						walk(a, inLoop, breakLeavesLoop, inErr, inCallback)
+					}
+				}
+				walk(y.Fun, inLoop, breakLeavesLoop, inErr, inCallback)
+				return false
+			case *ast.FuncLit:
+				walk(y.Body, false, false, false, false)
+				return false
+			case ast.Stmt:
+				walk(y, inLoop, breakLeavesLoop, inErr, inCallback)
+				return false
+			}
+			return true
+		})
+	}
+	walk(body, false, false, false, false)
 }
